@@ -99,6 +99,11 @@ _UNION_ARGS_RE = re.compile(r"^(std::option::Option::unwrap_or|std::result::Resu
 TRANSPARENT_ARG1 = re.compile(
     r"(?:<.* as cosmwasm_std::Api>::addr_\w+|cosmwasm_std::Api::addr_\w+)$")
 
+def is_idx(x):
+    """Index element of a named-field projection: "[]" (unknown index) or "[k]" (constant index)."""
+    return isinstance(x, str) and x.startswith("[")
+
+
 PAYLOAD_VARIANTS = {"Some", "Ok", "Continue", "Break", "Err"}
 
 STORAGE_READ = {"load", "may_load", "has", "range", "keys", "prefix", "query", "range_raw", "keys_raw"}
@@ -280,11 +285,11 @@ class FnView:
                 for d in self.defs().get(l, []):
                     if d[0] == "s":
                         F = tuple(self._named_fields(d[3]["lhs"]["p"]))
-                        if F and F == tuple(proj[:len(F)]) and "[]" not in F:
+                        if F and F == tuple(proj[:len(F)]) and "[]" not in F and "[]" not in proj[:len(F)]:
                             r.append((d[1], d[2]))
                     else:
                         F = tuple(self._named_fields(d[2]["dest"]["p"]))
-                        if F and F == tuple(proj[:len(F)]) and "[]" not in F:
+                        if F and F == tuple(proj[:len(F)]) and "[]" not in F and "[]" not in proj[:len(F)]:
                             r.append((d[1], len(self.blocks[d[1]]["s"])))
             self._ks[key] = r
         return r
@@ -307,6 +312,34 @@ class FnView:
             return False
         seen = set()
         dq = deque(self.succs(db))
+        while dq:
+            x = dq.popleft()
+            if x in seen:
+                continue
+            seen.add(x)
+            if x == ub:
+                return True
+            if x in blocked:
+                continue
+            dq.extend(self.succs(x))
+        return False
+
+    def entry_reaches(self, l, at, proj=()):
+        """Does the value local l (a parameter) had on entry reach the use at `at` along some path on which the part
+        being read (l.proj) is not overwritten?"""
+        if at is None:
+            return True
+        ub, ui = at
+        kills = self.kill_sites(l, tuple(proj))
+        if not kills:
+            return True
+        if ub == 0:
+            return not any(kb == 0 and ki < ui for kb, ki in kills)
+        blocked = {kb for kb, ki in kills if not (kb == ub and ki >= ui)}
+        if 0 in blocked or ub in blocked:
+            return False
+        seen = set()
+        dq = deque(self.succs(0))
         while dq:
             x = dq.popleft()
             if x in seen:
@@ -433,11 +466,9 @@ class FnView:
 
     def origins_of_place(self, pl, proj=(), taint=False, at=None):
         """Origins of the value read from `pl` followed by the named-field projection `proj`."""
-        fields = self._named_fields(pl["p"])
-        return self._origins_local(pl["l"], tuple(fields) + tuple(proj), taint, frozenset(), at)
+        return self._origins_pl(pl, tuple(proj), taint, frozenset(), at)
 
-    @staticmethod
-    def _named_fields(projs):
+    def _named_fields(self, projs):
         """Reduce a MIR projection list to named struct fields / user-enum variants.
         Deref is dropped; payload variants (Some/Ok/Continue/...) and their `.0` are dropped;
         tuple indices are kept as their number."""
@@ -461,7 +492,8 @@ class FnView:
                     out.append(e["n"] if e["n"] else str(e["f"]))
                     continue
                 if "i" in e or "ci" in e:
-                    out.append("[]")
+                    k = self._const_index(e)
+                    out.append("[]" if k is None else "[%d]" % k)
                     continue
             else:
                 out.append("[]")
@@ -471,11 +503,11 @@ class FnView:
         key = (l, proj, taint, at)
         if key in self._origin_cache:
             return self._origin_cache[key]
-        if (l, proj) in visiting:
+        if (l, proj, at) in visiting:
             return set()
-        visiting = visiting | {(l, proj)}
+        visiting = visiting | {(l, proj, at)}
         out = set()
-        if 1 <= l <= self.argc:
+        if 1 <= l <= self.argc and self.entry_reaches(l, at, proj):
             out.add(Origin("param", l, self.path, proj))
         for d in self.defs().get(l, []):
             if self._only is not None and d[1] not in self._only:
@@ -505,7 +537,7 @@ class FnView:
         # writes performed by closures that captured `&mut l`
         if getattr(self, "model", None) is not None and len(visiting) < 60:
             out |= self._closure_write_origins(l, proj, taint, at)
-        if not visiting - {(l, proj)}:
+        if not visiting - {(l, proj, at)}:
             self._origin_cache[key] = out
         return out
 
@@ -525,15 +557,15 @@ class FnView:
             if at is not None and not self.def_reaches(b, i, at):
                 continue
             F = tuple(self._named_fields(s["lhs"]["p"]))
-            for o in self._origins_local(base, (), False, visiting | {(l, proj)}, (b, i)):
+            for o in self._origins_local(base, (), False, visiting | {(l, proj, at)}, (b, i)):
                 r = roots.get((o.kind, o.a, o.b))
                 if r is None:
                     continue
-                wp = tuple(x for x in tuple(o.proj) + F if x != "[]")
-                rp = tuple(x for x in r.proj if x != "[]")
+                wp = tuple(x for x in tuple(o.proj) + F if not is_idx(x))
+                rp = tuple(x for x in r.proj if not is_idx(x))
                 n = min(len(wp), len(rp))
                 if wp[:n] == rp[:n]:
-                    res |= self._origins_rvalue(s["rv"], (), True, visiting | {(l, proj)}, b, i, (b, i))
+                    res |= self._origins_rvalue(s["rv"], (), True, visiting | {(l, proj, at)}, b, i, (b, i))
         return res
 
     def _closure_write_origins(self, l, proj, taint, at):
@@ -584,8 +616,9 @@ class FnView:
         """A def of `local.lhs_fields` feeds a read of `local.proj` when one is a prefix of the
         other. Returns the projection left to apply to the rvalue, or None if disjoint."""
         n = min(len(lhs_fields), len(proj))
-        if tuple(lhs_fields[:n]) != tuple(proj[:n]):
-            return None
+        for x, y in zip(lhs_fields[:n], proj[:n]):
+            if x != y and not (is_idx(x) and is_idx(y) and "[]" in (x, y)):
+                return None
         if len(lhs_fields) <= len(proj):
             return tuple(proj[len(lhs_fields):])
         # def writes a sub-field of what is read: the read value (partly) comes from it
@@ -638,8 +671,13 @@ class FnView:
                 if idx < len(rv["ops"]):
                     return self._origins_op(rv["ops"][idx], proj[1:], taint, visiting, at)
                 return set()
+            if proj and rv.get("array") and re.match(r"^\[\d+\]$", proj[0]):
+                idx = int(proj[0][1:-1])
+                if idx < len(rv["ops"]):
+                    return self._origins_op(rv["ops"][idx], proj[1:], taint, visiting, at)
+                return set()
             out = set()
-            p2 = proj[1:] if (proj and proj[0] == "[]") else proj
+            p2 = proj[1:] if (proj and is_idx(proj[0])) else proj
             for o in rv["ops"]:
                 out |= self._origins_op(o, p2, taint, visiting, at)
             return out or {Origin("const", "<empty-agg>")}
@@ -663,7 +701,27 @@ class FnView:
             return self._origins_pl(o["pl"], proj, taint, visiting, at)
         return set()
 
+    def _const_index(self, e):
+        """Constant value of an index projection element ({"ci": k} or {"i": local} with a single constant def)."""
+        if "ci" in e:
+            return int(e["ci"])
+        ds = self.defs().get(e["i"], [])
+        if len(ds) == 1 and ds[0][0] == "s":
+            rv = ds[0][3]["rv"]
+            if rv["r"] == "use" and rv["op"]["k"] == "const" and str(rv["op"].get("val", "")).isdigit():
+                return int(rv["op"]["val"])
+        return None
+
     def _origins_pl(self, pl, proj, taint, visiting, at=None):
+        # constant index into a fixed array literal `[a, b][k]`: select the k-th element
+        if pl["p"] and isinstance(pl["p"][0], dict) and ("i" in pl["p"][0] or "ci" in pl["p"][0]):
+            k = self._const_index(pl["p"][0])
+            ds = self.defs().get(pl["l"], [])
+            if k is not None and len(ds) == 1 and ds[0][0] == "s" and not ds[0][3]["lhs"]["p"]:
+                rv = ds[0][3]["rv"]
+                if rv["r"] == "agg" and rv.get("array") and k < len(rv["ops"]):
+                    rest = tuple(self._named_fields(pl["p"][1:])) + tuple(proj)
+                    return self._origins_op(rv["ops"][k], rest, taint, visiting, (ds[0][1], ds[0][2]))
         fields = self._named_fields(pl["p"])
         return self._origins_local(pl["l"], tuple(fields) + tuple(proj), taint, visiting, at)
 
@@ -697,7 +755,7 @@ class FnView:
         if a0["k"] not in ("copy", "move"):
             return out
         boxes = {a0["pl"]["l"]} | self.alias_roots(a0["pl"]["l"])
-        p2 = proj[1:] if (proj and proj[0] == "[]") else proj
+        p2 = proj[1:] if (proj and is_idx(proj[0])) else proj
         for b, i, s in self.iter_stmts():
             if "*" not in s["lhs"]["p"]:
                 continue
